@@ -51,18 +51,15 @@ Print Assumptions C19_prop_order_full.
 
 (* C19_schema_order, full statement (FALSE on cyclic documents: F02a, F02c - refuted on the parser model in
    Properties/C02.v):  forall S S', Permutation S S' -> forall n, model fields of n agree.
-   PARTIAL: corollary of C02's fidelity theorem (parser model of C02, coq/Model/Parser.v) - on the core fragment, with
-   acyclic references within the depth limit (hypotheses of C02_partial, required of both orders), every declared
-   schema has a genuine model in both runs and the two models have the same fields. *)
+   PARTIAL: this is C02_order_independent (parser model of C02, coq/Model/Parser.v) - on C02's core fragment, with
+   acyclic references within the depth limit (required of both orders), permuting components.schemas changes no
+   schema's model fields, for every name n. *)
 Theorem C19_schema_order_partial : forall md (S S' : Model.Parser.spec) rk rk',
-  Permutation S S' -> NoDup (map fst S) ->
   Model.Parser.core_spec S = true -> Model.Parser.ranked_b rk S = true -> Model.Parser.depth_ok rk S md = true ->
   Model.Parser.core_spec S' = true -> Model.Parser.ranked_b rk' S' = true -> Model.Parser.depth_ok rk' S' md = true ->
-  forall n, In n (map fst S) ->
-  exists e e', alookup n (Model.Parser.parsed (Model.Parser.parse_doc md S)) = Some e /\
-               alookup n (Model.Parser.parsed (Model.Parser.parse_doc md S')) = Some e' /\
-               Model.Parser.flags_of e = 0 /\ Model.Parser.flags_of e' = 0 /\
-               Model.Parser.fields_of e = Model.Parser.fields_of e'.
+  Permutation S S' ->
+  forall n, Model.Parser.model_fields (Model.Parser.parse_doc md S) n =
+            Model.Parser.model_fields (Model.Parser.parse_doc md S') n.
 Proof. exact schema_order_partial. Qed.
 Print Assumptions C19_schema_order_partial.
 
